@@ -118,7 +118,7 @@ pub fn run(args: &Args, rep: &mut Report) {
                     if let Some(e) = find(&fs2, "T.BIN") {
                         probe(&e, rep, "second mount");
                     }
-                    std::mem::forget(fs2);
+                    drop(fs2);
                 }
                 rep.count("remount_probes", 1);
             }
@@ -164,7 +164,7 @@ pub fn run(args: &Args, rep: &mut Report) {
             }
         }
         drop(f);
-        std::mem::forget(fs);
+        drop(fs);
     }));
     if r.is_err() {
         let (cls, full) = take_panic();
